@@ -137,6 +137,13 @@ struct VecDriver {
     // ---------------------------------------------------------------- helpers
     static constexpr bool floating = std::is_floating_point_v<T>;
 
+    // takes and returns the vector by value across a call the optimiser cannot see through
+    [[gnu::noinline]] static auto through_a_call(Vec v) -> Vec
+    {
+        asm volatile("" : : "r"(&v) : "memory");
+        return v;
+    }
+
     static auto mk(int64_t v) -> T
     {
         if constexpr (floating) {
@@ -1397,7 +1404,13 @@ struct VecDriver {
                     break;
                 case 4:
                     if constexpr (copyable) {
-                        made = new (mem) Vec(static_cast<Vec const&>(*obj[b]));
+                        if (st.k[2] % 3 == 0) {
+                            // the copy travels through a real (non-inlined) function call by value and comes back by
+                            // value: parameter and return objects must be built and ended by T's own special members
+                            made = new (mem) Vec(through_a_call(static_cast<Vec const&>(*obj[b])));
+                        } else {
+                            made = new (mem) Vec(static_cast<Vec const&>(*obj[b]));
+                        }
                     }
                     break;
                 case 5: made = new (mem) Vec(static_cast<Vec&&>(*obj[b])); break;
@@ -2673,6 +2686,10 @@ void register_vec_0()
     add_static<sim::Sealed, 4>("Sealed");
     add_static<sim::Sealed, 8>("Sealed");
     add_inplace<sim::Sealed, 4>("Sealed");
+    // one-byte trivial elements (byte-wise bulk paths)
+    add_static<unsigned char, 5>("uchar");
+    add_static<unsigned char, 8>("uchar");
+    add_inplace<unsigned char, 5>("uchar");
     add_static<sim::Coarse, 4>("Coarse");
     add_inplace<sim::Coarse, 4>("Coarse");
     add_stack<sim::Coarse, 3>("Coarse");
